@@ -269,9 +269,16 @@ def run_live(ctx, queries, n):
         loop_checked += 1
         data_lines = [l.encode('utf8') for l in c.lines]
         tables = []
+        too_wide = False
         for k in range(len(data_lines) + 1):
             wl, _o = expected_lines(c.query, b''.join(data_lines[:k]), h, None)
             tables.append(wl)
+            # the non-terminal table is laid out for 240 columns: comparable only while it also fits the terminal
+            if any(len(l) > w for l in _o['out'].decode('utf8', 'replace').split('\n')):
+                too_wide = True
+        if too_wide:
+            loop_checked -= 1
+            continue
         pos = 0
         for fi, fr in enumerate(frames):
             ks = [k for k in range(pos, len(tables)) if tables[k] == fr]
